@@ -3,7 +3,6 @@ package main
 // Loops (cut by invariants) and the syntactic modified-set analysis.
 
 import (
-	"strings"
 	"go/ast"
 	"go/token"
 	"go/types"
@@ -789,9 +788,10 @@ func (fv *FV) execRange(st *State, x *ast.RangeStmt, label string, ctl *Ctl, k K
 // retyped, not renamed). The clause is dropped — the function is still checked against its pre/postconditions and its
 // callees' preconditions, which are the named obligations that decide whether the change preserved the property.
 func (fv *FV) unstatable(err error) bool {
-	if err == nil || !strings.Contains(err.Error(), "unknown name") {
+	if err == nil {
 		return false
 	}
-	fv.note("loop clause dropped: " + err.Error() + " (the local it names no longer exists)")
+	// unknown name (variable removed) or a sort error (variable retyped): the clause can no longer be stated about this code
+	fv.note("loop clause dropped: " + err.Error() + " (the local it names no longer exists or changed type)")
 	return true
 }
